@@ -457,7 +457,8 @@ builtin_dirscan(spif_charptr_t param)
                 unsigned long len;
 
                 len = strlen(dp->d_name);
-                if (len < n) {
+                /* Room is needed for the name, the separating blank and the terminator. */
+                if (len + 1 < n) {
                     strcat((char *) buff, dp->d_name);
                     strcat((char *) buff, " ");
                     n -= len + 1;
